@@ -10,9 +10,11 @@ package core
 // data-race search.
 
 import (
+	"context"
 	"fmt"
 	"net"
 	"net/http"
+	"net/url"
 	"os"
 	"os/exec"
 	"regexp"
@@ -25,6 +27,7 @@ import (
 	"time"
 
 	"github.com/bluenviron/gohlslib/v2"
+	"github.com/bluenviron/gortmplib"
 	"github.com/bluenviron/gortsplib/v5/pkg/description"
 	"github.com/bluenviron/gortsplib/v5/pkg/format"
 
@@ -32,7 +35,9 @@ import (
 	"github.com/bluenviron/mediamtx/internal/defs"
 	"github.com/bluenviron/mediamtx/internal/externalcmd"
 	"github.com/bluenviron/mediamtx/internal/logger"
+	"github.com/bluenviron/mediamtx/internal/metrics"
 	"github.com/bluenviron/mediamtx/internal/servers/hls"
+	"github.com/bluenviron/mediamtx/internal/servers/rtmp"
 	"github.com/bluenviron/mediamtx/internal/test"
 	"github.com/bluenviron/mediamtx/internal/verifutil"
 )
@@ -339,8 +344,11 @@ func verifC40Stuck(ops *atomic.Int64) (string, bool) {
 
 func verifC40Exec(op string) string {
 	f := strings.Fields(op)
-	if f[0] != "stress" && f[0] != "hls" {
+	if f[0] != "stress" && f[0] != "hls" && f[0] != "metrics" && f[0] != "rtmp" {
 		return "bad-op"
+	}
+	if f[0] == "metrics" || f[0] == "rtmp" {
+		return verifC40Child(op)
 	}
 	if f[0] == "hls" {
 		// child process: a hung run leaks nothing here; the budget only bounds the time spent on a defect
@@ -477,8 +485,11 @@ func verifC40Child(op string) string {
 	}
 	var chain []string
 	for _, l := range strings.Split(txt[i:], "\n") {
-		if strings.HasPrefix(l, "\t") || len(chain) == 4 {
+		if strings.HasPrefix(l, "\t") || len(chain) == 6 {
 			continue
+		}
+		if strings.HasPrefix(l, "goroutine ") && len(chain) > 0 {
+			break // only the panicking goroutine (the first one of the dump)
 		}
 		const pfx = "github.com/bluenviron/mediamtx/internal/"
 		if j := strings.Index(l, pfx); j >= 0 {
@@ -504,7 +515,16 @@ func TestVerifC40Child(t *testing.T) {
 	if op == "" {
 		t.Skip("child of TestVerifC40 only")
 	}
-	fmt.Println("VERIFC40ANSWER " + verifC40HLS(strings.Fields(op)))
+	f := strings.Fields(op)
+	if f[0] == "metrics" {
+		fmt.Println("VERIFC40ANSWER " + verifC40Metrics(f))
+		return
+	}
+	if f[0] == "rtmp" {
+		fmt.Println("VERIFC40ANSWER " + verifC40RTMP(f))
+		return
+	}
+	fmt.Println("VERIFC40ANSWER " + verifC40HLS(f))
 }
 
 func verifC40FreePort() int {
@@ -649,7 +669,200 @@ func verifC40HLS(f []string) string {
 	return verifC40Watch(finished, &ops, watchdog)
 }
 
+// metrics <seed> <cycles> <scrapers> <watchdog>: a real metrics.Metrics wired to the real pathManager the
+// way core does it (pathManager.initialize registers itself, pathManager.close unregisters itself), scraped
+// over HTTP while the path manager is closed and re-created again and again (what every configuration
+// reload that touches the path manager does).  Regression op for F-C40c (fixed in /repo fbbecad).
+func verifC40Metrics(f []string) string {
+	seed := uint64(verifutil.AtoI64(f[1]))
+	cycles, scrapers := verifutil.Atoi(f[2]), verifutil.Atoi(f[3])
+	watchdog := time.Duration(verifutil.Atoi(f[4])) * time.Millisecond
+	port := verifC40FreePort()
+	m := &metrics.Metrics{
+		Address:      fmt.Sprintf("127.0.0.1:%d", port),
+		AllowOrigins: []string{"*"},
+		ReadTimeout:  conf.Duration(10 * time.Second),
+		WriteTimeout: conf.Duration(10 * time.Second),
+		AuthManager:  test.NilAuthManager,
+		Parent:       test.NilLogger,
+	}
+	if err := m.Initialize(); err != nil {
+		return "done sites=-"
+	}
+	pool := &externalcmd.Pool{}
+	pool.Initialize()
+	var ops atomic.Int64
+	var wg sync.WaitGroup
+	stop := make(chan struct{})
+	for i := 0; i < scrapers; i++ {
+		wg.Add(1)
+		go func() {
+			defer wg.Done()
+			hc := &http.Client{Timeout: 2 * time.Second, Transport: &http.Transport{DisableKeepAlives: true}}
+			for {
+				select {
+				case <-stop:
+					return
+				default:
+				}
+				if res, err := hc.Get(fmt.Sprintf("http://127.0.0.1:%d/metrics", port)); err == nil {
+					res.Body.Close() //nolint:errcheck
+				}
+				ops.Add(1)
+			}
+		}()
+	}
+	finished := make(chan struct{})
+	go func() {
+		r := verifutil.NewRand(seed)
+		for c := 0; c < cycles; c++ {
+			pm := &pathManager{
+				logLevel:          conf.LogLevel(logger.Error),
+				readTimeout:       conf.Duration(10 * time.Second),
+				writeTimeout:      conf.Duration(10 * time.Second),
+				writeQueueSize:    512,
+				udpMaxPayloadSize: 1452,
+				rtpMaxPayloadSize: 1440,
+				authManager:       test.NilAuthManager,
+				externalCmdPool:   pool,
+				metrics:           m,
+				pathConfs:         verifC40Confs(r.Intn(5)),
+				parent:            test.NilLogger,
+			}
+			pm.initialize()
+			time.Sleep(time.Duration(r.Intn(4)) * time.Millisecond)
+			pm.close()
+			time.Sleep(time.Duration(r.Intn(3)) * time.Millisecond) // the window in which core has no path manager
+			ops.Add(1)
+		}
+		close(stop)
+		wg.Wait()
+		m.Close()
+		pool.Close()
+		close(finished)
+	}()
+	return verifC40Watch(finished, &ops, watchdog)
+}
+
+// rtmp <seed> <clients> <iters> <watchdog>: a real rtmp.Server on the real pathManager; one stream is up;
+// RTMP reader connections are set up and torn down in a loop (real gortmplib clients) while the API
+// (APIConnsList / APIConnsGet / APIConnsKick, what the HTTP API and the metrics endpoint call) is hammered.
+func verifC40RTMP(f []string) string {
+	seed := uint64(verifutil.AtoI64(f[1]))
+	clients, iters := verifutil.Atoi(f[2]), verifutil.Atoi(f[3])
+	watchdog := time.Duration(verifutil.Atoi(f[4])) * time.Millisecond
+
+	pool := &externalcmd.Pool{}
+	pool.Initialize()
+	pm := &pathManager{
+		logLevel:          conf.LogLevel(logger.Error),
+		readTimeout:       conf.Duration(10 * time.Second),
+		writeTimeout:      conf.Duration(10 * time.Second),
+		writeQueueSize:    512,
+		udpMaxPayloadSize: 1452,
+		rtpMaxPayloadSize: 1440,
+		authManager:       test.NilAuthManager,
+		externalCmdPool:   pool,
+		pathConfs:         verifC40Confs(0),
+		parent:            test.NilLogger,
+	}
+	pm.initialize()
+	port := verifC40FreePort()
+	srv := &rtmp.Server{
+		Address:         fmt.Sprintf("127.0.0.1:%d", port),
+		ReadTimeout:     conf.Duration(10 * time.Second),
+		WriteTimeout:    conf.Duration(10 * time.Second),
+		ExternalCmdPool: pool,
+		PathManager:     pm,
+		Parent:          test.NilLogger,
+	}
+	if err := srv.Initialize(); err != nil {
+		pm.close()
+		pool.Close()
+		return "done sites=-"
+	}
+	var wg sync.WaitGroup
+	pub := &verifC40Pub{wg: &wg}
+	if res, err := pm.AddPublisher(defs.PathAddPublisherReq{
+		Author: pub, Desc: &description.Session{Medias: []*description.Media{test.UniqueMediaH264()}},
+		AccessRequest: defs.PathAccessRequest{Name: "s1", Publish: true, SkipAuth: true},
+	}); err == nil {
+		pub.mu.Lock()
+		pub.pa = res.Path
+		pub.mu.Unlock()
+	}
+
+	var ops atomic.Int64
+	stop := make(chan struct{})
+	root := verifutil.NewRand(seed)
+	u, _ := url.Parse(fmt.Sprintf("rtmp://127.0.0.1:%d/s1", port))
+	for i := 0; i < clients; i++ {
+		r := root.Fork()
+		wg.Add(1)
+		go func() {
+			defer wg.Done()
+			for j := 0; j < iters; j++ {
+				ctx, cancel := context.WithTimeout(context.Background(), 2*time.Second)
+				c := &gortmplib.Client{URL: u, Publish: false}
+				if err := c.Initialize(ctx); err == nil {
+					if r.Chance(1, 2) {
+						time.Sleep(time.Duration(r.Intn(3)) * time.Millisecond)
+					}
+					c.Close()
+				}
+				cancel()
+				ops.Add(1)
+			}
+		}()
+	}
+	var api sync.WaitGroup
+	for i := 0; i < 2; i++ {
+		r := root.Fork()
+		api.Add(1)
+		go func() {
+			defer api.Done()
+			for {
+				select {
+				case <-stop:
+					return
+				default:
+				}
+				if l, err := srv.APIConnsList(); err == nil && len(l.Items) > 0 {
+					it := l.Items[r.Intn(len(l.Items))]
+					if r.Chance(1, 10) {
+						srv.APIConnsKick(it.ID) //nolint:errcheck
+					} else {
+						srv.APIConnsGet(it.ID) //nolint:errcheck
+					}
+				}
+			}
+		}()
+	}
+	finished := make(chan struct{})
+	go func() {
+		wg.Wait()
+		close(stop)
+		api.Wait()
+		srv.Close()
+		pm.close()
+		wg.Wait()
+		pool.Close()
+		close(finished)
+	}()
+	return verifC40Watch(finished, &ops, watchdog)
+}
+
 func verifC40Gen(r *verifutil.Rand, i int, thorough bool) []string {
+	if i%20 == 18 {
+		it := 40 + r.Intn(40)
+		if thorough {
+			it = 100 + r.Intn(200)
+		}
+		return []string{fmt.Sprintf("rtmp %d %d %d %d", r.U64()>>1, 2+r.Intn(3), it, 4000)}
+	}
+	if i%20 == 9 {
+		return []string{fmt.Sprintf("metrics %d %d %d %d", r.U64()>>1, 40+r.Intn(40), 2+r.Intn(3), 4000)}
+	}
 	if i%4 == 3 {
 		always := (i / 4) % 2 // alternately alwaysRemux on and off
 		it := 30 + r.Intn(50)
@@ -679,6 +892,9 @@ func TestVerifC40(t *testing.T) {
 			f := strings.Fields(op)
 			if f[0] == "hls" {
 				return "hls/alwaysRemux" + f[2] + "/" + strings.Fields(impl)[0]
+			}
+			if f[0] == "metrics" || f[0] == "rtmp" {
+				return f[0] + "/" + strings.Fields(impl)[0]
 			}
 			k := "reload" + f[4]
 			if f[5] == "1" {
